@@ -29,6 +29,10 @@ def _case(i):
         name, prog = 'tmpl:stack0_data', gen.tmpl_stack0_data(rng)
     elif i % 12 == 9:
         name, prog = 'tmpl:forward_jump', gen.tmpl_forward_jump(rng)
+    elif i % 24 == 15:
+        name, prog = 'tmpl:first_command_source', gen.tmpl_first_command_source(rng)
+        if rng.random() < 0.3:
+            prog = gen.epilogue(rng, prog)
     else:
         name, prog = gen.gen_case(rng, allow_input=True)
     stdin = gen.gen_stdin(rng)
@@ -205,5 +209,6 @@ def main(tier, seed):
                'steps': (hist.get('steps_compared_one', 0), 5000),
                'heart_after_heart': (featc.get('heart_after_heart', 0), 5),
                'forward_jump': (featc.get('forward_jump', 0), 10),
+               'heart_return_to_first_command': (featc.get('heart_return_to_first_command', 0), 15),
                'stack0_used_as_data': (featc.get('stack0_used_as_data', 0), 30)}
     return rep.finish(cov, assumptions, t0, minimum)
